@@ -203,8 +203,13 @@ def run_case(case):
     opts = dict(case.get("opts", {}))
     conv = harness.convert(text, **opts)
     if not conv["ok"]:
-        obs["nontrivial"] = False
-        obs["counters"]["not_converted"] = 1
+        # the graph programs have every target defined, numbers below 32700 and at most one handler of each kind:
+        # refusing one of them is as wrong as converting one that must be refused
+        obs["counters"]["graphs_checked"] = 1
+        if conv["documented"]:
+            v("C06/valid-program-refused/" + conv["exc"], message=conv.get("msg"))
+        else:
+            obs["counters"]["internal_error"] = 1
         return obs
     lab, jumps, seq, perr = labels_and_markers(conv["out"])
     if lab is None:
